@@ -129,6 +129,15 @@ def run(model, col, tier):
     for k, stem in sorted(opmap.items(), key=lambda kv: str(kv[0])):
         mem = k.member if isinstance(k, EnumRef) else str(k)
         want = oracles.WASM_OPSTEM.get(mem)
+        if mem == "MOD":
+            # wasm's rem_s/rem_u is the *truncated* remainder; it only agrees with the VM if the VM's MOD arm is not Python's floored `%`
+            marm = VMModel(model).arm("MOD")
+            floored = any(isinstance(x, ast.BinOp) and isinstance(x.op, ast.Mod) for st_ in marm.body for x in ast.walk(st_)) or \
+                any(isinstance(x, ast.Call) and (dotted(x.func) or "").endswith("operator.mod") for st_ in marm.body for x in ast.walk(st_))
+            col.check(not floored, "R06.3", f"{GEN}::opCodeMap[MOD]", "the VM computes a truncated remainder like wasm `rem`",
+                      f"IR opcode MOD is translated with the wasm operator `{stem}` (truncated remainder), but the VM's MOD arm uses Python's floored `%`: for operands of different sign "
+                      "(-7 % 3) the VM yields 2 and the wasm module -1; without a matching instruction the translation has to be refused", GEN, opnode)
+            continue
         col.check(want == stem, "R06.3", f"{GEN}::opCodeMap[{mem}]", f"{mem} -> {stem}", f"IR opcode {mem} is translated with the wasm operator `{stem}`; it denotes `{want}`", GEN, opnode)
     # mnemonic construction: fold the f-string and the suffix condition over (type, opcode, unsigned)
     fs = [v for v in find_assign(vb, "opCode") if isinstance(v, ast.JoinedStr)]
@@ -270,3 +279,8 @@ def run(model, col, tier):
 
     c19.check_signed(model, col, "R06.7")
     c19.check_encoder_shape(model, col, "R06.7")
+    # ---------------- R06.8 a memoised translation is keyed by everything it depends on -------
+    from .. import memo
+
+    memo.check_file(model, col, "R06.8", GEN)
+    memo.check_file(model, col, "R06.8", WA)
